@@ -57,7 +57,7 @@ PROPS = {
         kani=['k_player_bytes_8_4'],
     ),
     'C19': dict(
-        units=[('startend', r'(try_from|lemma_nul_len|C19|^player$|to_normalized|lemma_fix_char)')],
+        units=[('startend', r'(try_from|lemma_nul_len|C19|^player$|to_normalized|lemma_fix_char|^fix_char$)')],
         kani=['c19_fix_char'],
     ),
     'C06': dict(
